@@ -410,7 +410,10 @@ def run_history(ctx, kind, hist):
         ok = step(ctx, w, ev, hist, True)
         if not ok:
             return False, None
-    return True, canon(w)
+    # a refused write leaves the visible state as it was; the history is
+    # kept apart so that whatever a refusal leaves behind gets explored
+    refused = bool(hist) and "bad" in [str(x) for x in hist[-1]]
+    return True, (canon(w), refused)
 
 
 def shards(tier):
